@@ -130,6 +130,22 @@ TABLE = [
      'conformance run per layout class.',
      'No secondary/supplementary alignments; reads are pre-tagged; samtools absent so the pysam merge/sort paths run; worker count is '
      'observable only through the completion order.'),
+    ('C12',
+     'schedule + configuration enumeration: every bins-per-job 1..N x bin size x max fragment size x key tags x every completion order of the pool jobs (scheduler-owned Pool) on the real generate_commands/obtain_counts/count_fragments_binned and get_binned_counts; direct-count oracle from the BAM records',
+     'Tagged BAMs (3-4 contigs, 3 cells) with DS on every job boundary, +-1, at 0 and at the contig end, sites left/right of the read up to '
+     'max_fragment_size, both strands, allele key tags, and every kind of record that must not be counted (duplicate, qc-fail, read 2, MAPQ below '
+     'threshold, mp not unique); bin {50,100,250} x bins-per-job 1..N x max_fragment_size {20,100,1000} x key_tags {None,[DA]} x every '
+     'completion order for <=5 (thorough <=6) jobs, orders within 2 (3) adjacent swaps + reversal for more; default-option calls; '
+     'get_binned_counts x n_threads x orders; free-running real-Pool conformance runs in a subprocess.',
+     '|DS - read span| <= max_fragment_size; sites outside the contig only judged for invariance; several BAMs sharing cells (dict.update merge) is outside the property.'),
+    ('C20',
+     'crash-point / fault enumeration: every injection point discovered by an instrumented fault-free run x {exception, kill} x {single, --multiprocess} x {nla, chic}, each execution in a forked child (kill = os._exit at the point); status-vs-output oracle',
+     'Points: before/after every molecule write, before/after the read-group header rewrite (per job in multiprocess mode), before/inside/after every sort '
+     '(inside = half-written output), before/after every index, every pool job, before/inside/after merge, temp-folder cleanup. Quick: every single fault; '
+     'thorough: also every pair of consecutive points and all three sort retries failing. Oracle: the status file never says success unless the run '
+     'returned normally, and whenever it says success the BAM exists, ends with the BGZF EOF block, is coordinate sorted, has a usable up-to-date '
+     'index and holds every input record; the fault-free run must report success.',
+     'Kills land at Python-level step boundaries and two modelled mid-write points; pool jobs run in-process (killing one OS worker of a real Pool hangs and is not explored).'),
 ]
 
 # id -> reason it is currently not claimed
